@@ -8,6 +8,7 @@ import Rare.Drv.C01
 import Rare.Gen.C02
 import Rare.Gen.C12
 import Rare.Model.C12
+import Rare.Model.C02Batch
 namespace Rare.Drv.C02
 open Rare Rare.C02 Rare.Proto
 
@@ -70,6 +71,16 @@ def pathW (s : Bytes) : Rx.Re → Nat → PathW
 def totalWork (s : Bytes) (r : Rx.Re) : Nat :=
   (List.range (s.length + 1)).foldl (fun acc p => acc + (pathW s r p).w) 0
 
+/-- the timer oracle a chunk script suggests: the first line after a pause `p` is time-flushed -/
+def tfOracle : List String → Bool → List Bool
+  | [], _ => []
+  | tok :: rest, pending =>
+    if tok == "p" then tfOracle rest true
+    else match tok.toNat? with
+      | some 0 => tfOracle rest pending
+      | some (k + 1) => (pending :: List.replicate k false) ++ tfOracle rest false
+      | none => tfOracle rest pending
+
 def ansOf : Except String KeyAns → String
   | .error _ => "panic"
   | .ok .json => "unmodelled json"
@@ -99,6 +110,10 @@ def ansOf : Except String KeyAns → String
   `unmodelled` outside the fragment (non-ASCII, nullable loop bodies, flags, …);
 * `rxkey <pattern> <line> <key>` – `{key}` evaluated by the real extractor with the real regex matcher, the
   model side computing everything from the pattern text: parser, leftmost-first matcher, name table, `GetKey`;
+* `tflush <batch> <buffer> <flushms> <pattern> <chunks> <lines>` – the time-flush loop as read from the source, on
+  the slice-level machine (`Model/C02Batch`: backing arrays, `append` in place, `make`), with the timer oracle the
+  chunk script suggests; the sent batches are read only at the very END (`lateRead`), numbered `BatchStart + idx`
+  and matched by the model regex engine; per match `number:line:indices:extracted` for `{src}|{line}|{1}|{2}`;
 * `vis <bytes>` – `color.StrLen`'s visible bytes (count compared with the real `StrLen`);
 * `pipe …`, `regexpipe <n>` – pipeline ops shared with C01;
 * `dissectpipe <groups> <pattern> <input> <batch>` – the dissect matcher with one worker, all matches held
@@ -215,6 +230,32 @@ def handle : List String → String
               | .ok b => s!"ok {Hex.enc b}"
               | .error _ => "panic"
             | none => ansOf (getKey c k)
+    | _, _, _ => "bad-args"
+  | ["tflush", bs, _, _, p, chunks, ls] =>
+    match bs.toNat?, Hex.dec p, decHexList ls with
+    | some batch, some pat, some lines =>
+      if batch = 0 then "unmodelled batch" else
+      if lines.any (fun l => l.any (· ≥ 0x80)) then "unmodelled non-ascii" else
+      match Rx.parse pat with
+      | none => "unmodelled syntax"
+      | some pr =>
+        let toks := if chunks == "." then [] else chunks.splitOn ","
+        let orc := tfOracle toks false
+        let orc := orc ++ List.replicate (lines.length - orc.length) false
+        let fin := BatchH.runH BatchH.timedLoop batch (lines.zip orc)
+        let cells := BatchH.numbered (BatchH.lateRead fin)
+        if cells.any (fun c => c.1.isNone) then "panic" else
+        let src := ascii "s0"
+        let rows := cells.filterMap fun c =>
+          match c.1 with
+          | none => none
+          | some line =>
+            let ix := Rx.findSubmatchIndex line pr.re pr.ng
+            if ix.isEmpty then none else
+            let g (k : Int) := match getMatch line ix k with | .ok b => b | .error _ => []
+            let ext := src ++ [0x7c] ++ itoa c.2 ++ [0x7c] ++ g 1 ++ [0x7c] ++ g 2
+            some s!"{c.2}:{Hex.enc line}:{".".intercalate (ix.map toString)}:{Hex.enc ext}"
+        s!"ok read={cells.length} matches={if rows.isEmpty then "." else ",".intercalate rows}"
     | _, _, _ => "bad-args"
   | ["vis", b] =>
     match Hex.dec b with
